@@ -1,10 +1,11 @@
 from props import tu, run, FCO, NONULL
 
-_PARTS = 10
+_PARTS = 14
 # cases per part (same enumeration in both tiers): static refs u8 (36), u16 (58, 48), u32 (54), u64 (27), dynamic refs (38),
-# bit-aligned pixels (56, 40), packed pixels (6), iterators (288); parts 3, 4, 5, 7 include the wide (20..32-bit) channels
-_CASES = [36, 58, 48, 54, 27, 38, 56, 40, 6, 288]
-_SHARDS = [8, 16, 16, 8, 8, 16, 8, 16, 6, 8]
+# bit-aligned pixels (56, 40), packed pixels (6), iterators (288); parts 3, 4, 5, 7 include the wide (20..32-bit) channels;
+# parts 10-12: 5 bit-aligned factory types each x (8 pixel + 32 iterator + 1 row case), part 13: 6 packed factory types
+_CASES = [36, 58, 48, 54, 27, 38, 56, 40, 6, 288, 205, 205, 205, 6]
+_SHARDS = [8, 16, 16, 8, 8, 16, 8, 16, 6, 8, 8, 8, 8, 6]
 
 CFG = dict(
     level="exploration",
@@ -34,6 +35,9 @@ CFG = dict(
            "wide channels: packed_channel_reference<u32|u64,First,24|30>, packed_dynamic_channel_reference<u32,24>, <u64,20|30|32>, bit-aligned 30+30 in u64",
            "bit_aligned_pixel_reference: gray1 gray2 gray4 gray7 bgr121 rgb123 rgb444 rgb565 rgba2222 5x8(u64) rgb3.12.9",
            "packed_pixel: rgb565 bgr556 rgb555 gray3 rgba2222(u8) rgb10.10.10(u32)",
+           "factory types: bit_aligned_image1_type<1..7,gray>, image3_type<1,2,1 bgr | 2,3,2 | 1,2,3 | 4,4,4 | 5,6,5>, image4_type<5,5,5,1>, "
+           "image2_type<3,5>, image5_type<1,2,3,2,1> (view_t::reference, x_iterator, carrier as chosen by the factory); "
+           "packed_image1_type<u8,3>, image2_type<u8,3,5>, image3_type<u16,5,6,5 | 5,5,5>, image4_type<u16,4,4,4,4 | u8,2,2,2,2>",
            "bit_aligned_pixel_iterator over gray1 gray2 gray4 gray7 bgr121 rgb123 rgb444 rgb565 5x8"],
     assumptions=["little-endian host: bit p of a BitField is bit p&7 of byte p>>3",
                  "channels fit their bit field (first bit + Num <= 8*sizeof(BitField)); bit-aligned pixels use a bit field of at least bit_size+7 bits, as bit_aligned_image_type chooses",
@@ -47,5 +51,6 @@ CFG = dict(
     require_obs=["pref.8bit-field", "pref.16bit-field", "pref.32bit-field", "pref.64bit-field",
                  "pdyn.8bit-field", "pdyn.16bit-field", "pdyn.32bit-field", "pdyn.64bit-field",
                  "bitaligned.1bit", "bitaligned.16bit", "bitaligned.40bit", "packedpixel.16bit",
-                 "iter.arith", "iter.fill", "iter.copy", "iter.tight"],
+                 "iter.arith", "iter.fill", "iter.copy", "iter.tight",
+                 "factory.row", "factory.gray7.carrier.*", "factory.rgb232.carrier.*", "factory.rgb565.carrier.*", "factory.pk.rgb565.carrier.u16"],
 )
